@@ -1107,6 +1107,7 @@ where
 
     fn reset(&mut self) {
         self.key = None;
+        self.map.clear();
         self.stage = MapStage::Init;
         self.key_rec.reset();
         self.val_rec.reset();
